@@ -286,3 +286,104 @@ def run(report, prog, tier):
                        'ast of /repo/src/nfc/clf/__init__.py is the program that runs']
     report.assumptions += ['applications do not reach into clf.device themselves',
                            'user callbacks passed to connect() are opaque']
+
+
+CLF = 'nfc.clf'
+MUTANTS = [
+    ('max-send-size-lock-free-alias', CLF, """        with self.lock:
+            if self.device is None:
+                raise IOError(errno.ENODEV, os.strerror(errno.ENODEV))
+            else:
+                return self.device.get_max_send_data_size(self.target)""", """        dev = self.device
+        if dev is None:
+            raise IOError(errno.ENODEV, os.strerror(errno.ENODEV))
+        return dev.get_max_send_data_size(self.target)""", 'C15-R'),
+    ('max-recv-size-unlocked', CLF, """        with self.lock:
+            if self.device is None:
+                raise IOError(errno.ENODEV, os.strerror(errno.ENODEV))
+            else:
+                return self.device.get_max_recv_data_size(self.target)""", """        if True:
+            if self.device is None:
+                raise IOError(errno.ENODEV, os.strerror(errno.ENODEV))
+            else:
+                return self.device.get_max_recv_data_size(self.target)""", 'C15-R1'),
+    ('close-nonblocking-acquire', CLF, """        with self.lock:
+            if self.device is not None:
+                try:
+                    self.device.close()
+                except IOError:
+                    pass
+                self.device = None""", """        locked = self.lock.acquire(False)
+        try:
+            if self.device is not None:
+                try:
+                    self.device.close()
+                except IOError:
+                    pass
+                self.device = None
+        finally:
+            if locked:
+                self.lock.release()""", 'C15-R'),
+    ('open-assigns-device-unlocked', CLF, """        with self.lock:
+            log.info("searching for reader on path " + path)
+            self.device = device.connect(path)""", """        self.device = device.connect(path)
+        with self.lock:
+            log.info("searching for reader on path " + path)""", 'C15-R3'),
+    ('sense-mute-after-lock', CLF, """                if len(targets) > 0:
+                    self.device.mute()  # deactivate the rf field
+                if i < options.get('iterations', 1) - 1:
+                    elapsed = time.time() - started
+                    time.sleep(max(0, options.get('interval', 0.1)-elapsed))""", """                if i < options.get('iterations', 1) - 1:
+                    elapsed = time.time() - started
+                    time.sleep(max(0, options.get('interval', 0.1)-elapsed))
+        if len(targets) > 0:
+            self.device.mute()  # deactivate the rf field""", 'C15-R1'),
+    ('exchange-none-test-dropped', CLF, """        with self.lock:
+            if self.device is None:
+                raise IOError(errno.ENODEV, os.strerror(errno.ENODEV))
+
+            log.debug(">>> %s timeout=%s", print_data(send_data), str(timeout))""", """        with self.lock:
+            log.debug(">>> %s timeout=%s", print_data(send_data), str(timeout))""", 'C15-R2'),
+    ('exchange-call-outside-lock', CLF, """            send_time = time.time()
+            rcvd_data = exchange(self.target, send_data, timeout)
+            recv_time = time.time() - send_time
+
+            log.debug("<<< %s %.3fs", print_data(rcvd_data), recv_time)
+            return rcvd_data""", """        send_time = time.time()
+        rcvd_data = exchange(self.target, send_data, timeout)
+        recv_time = time.time() - send_time
+        log.debug("<<< %s %.3fs", print_data(rcvd_data), recv_time)
+        return rcvd_data""", 'C15-R1'),
+    ('led-call-unlocked', CLF, """                        with self.lock:
+                            if self.device is not None:
+                                self.device.turn_off_led_and_buzzer()""", """                        if self.device is not None:
+                            self.device.turn_off_led_and_buzzer()""", 'C15-R1'),
+    ('reentrant-lock', CLF, "        self.lock = threading.Lock()", "        self.lock = threading.RLock()", 'C15-R5'),
+    ('locked-region-calls-public-method', CLF, """        with self.lock:
+            log.info("searching for reader on path " + path)
+            self.device = device.connect(path)""", """        with self.lock:
+            self.close()
+            log.info("searching for reader on path " + path)
+            self.device = device.connect(path)""", 'C15-R5'),
+    ('foreign-driver-call', 'nfc.tag.tt4', """        log.debug("send RATS command to activate the Type 4A Tag")
+""", """        log.debug("send RATS command to activate the Type 4A Tag")
+        self.clf.device.mute()
+""", 'C15-R4'),
+    ('listen-closure-escapes-lock', CLF, """        with self.lock:
+            if self.device is None:
+                raise IOError(errno.ENODEV, os.strerror(errno.ENODEV))
+
+            self.target = None  # forget captured target
+            self.device.mute()  # deactivate the rf field
+
+            info = "listen %.3f seconds for %s\"""", """        if target.brty == '106X':
+            return listen_tta(target, timeout)
+        with self.lock:
+            if self.device is None:
+                raise IOError(errno.ENODEV, os.strerror(errno.ENODEV))
+
+            self.target = None  # forget captured target
+            self.device.mute()  # deactivate the rf field
+
+            info = "listen %.3f seconds for %s\"""", 'C15-R1'),
+]
